@@ -237,6 +237,8 @@ def polish(e) -> list[str]:
         return [k]
     if k == 'n':
         return ['n', str(e[1])]
+    if k == 'lit':
+        return ['lit', str(e[1]), str(e[2])]
     if k == 'cmp':
         return ['cmp', e[1]] + polish(e[2]) + polish(e[3])
     if k in ('p', 'sl', 'ds', 'and', 'or', 'un'):
@@ -292,7 +294,10 @@ def render(e) -> str:
     if k == 'g':
         return f'({render(e[1])})'
     if k == 'n':
-        return str(e[1])
+        return ('0' * (e[2] if len(e) > 2 else 0)) + str(e[1])      # e[2] = number of leading zeros ('00')
+    if k == 'lit':
+        return ('-' if e[1] else '') + (str(e[2] // 10) if e[2] % 10 == 0 and e[1] and len(e) > 3 and e[3] == 'int'
+                                        else f'{e[2] // 10}.{e[2] % 10}')
     if k == 'pos':
         return 'position()'
     if k == 'last':
@@ -539,10 +544,31 @@ def gen_bool(rng, depth):
     return [rng.choice(['and', 'or', 'or']), gen_bool_operand(rng, depth), gen_bool_operand(rng, depth)]
 
 
+def gen_boundary_literal(rng):
+    """boundary values of a positional predicate: 0, 00, n, n+1 (small trees: 4, 5), very large, negative,
+    non-integral and integral decimals"""
+    r = rng.random()
+    if r < 0.3:
+        return ['n', 0, rng.choice([0, 0, 1])]
+    if r < 0.45:
+        return ['n', rng.choice([4, 5, 6, 9]), 0]
+    if r < 0.55:
+        return ['n', rng.choice([10 ** 20, 2 ** 63, 2 ** 64 + 1]), 0]
+    if r < 0.68:
+        return ['lit', 1, rng.choice([10, 20]), 'int']            # -1, -2
+    if r < 0.84:
+        return ['lit', 0, rng.choice([10, 20, 20, 30])]             # 1.0 2.0 3.0
+    if r < 0.92:
+        return ['lit', 0, rng.choice([0, 15, 5, 25])]               # 0.0 1.5 0.5 2.5
+    return ['lit', 1, rng.choice([0, 15, 10])]                      # -0.0 -1.5 -1.0
+
+
 def gen_pred(rng, depth):
     r = rng.random()
     if r < 0.16:
         return gen_bool(rng, 1)
+    if r < 0.28:
+        return gen_boundary_literal(rng)
     r = rng.random()
     if r < 0.3:
         return ['n', rng.choice([1, 1, 2, 2, 3])]
@@ -564,6 +590,8 @@ def gen_pred(rng, depth):
         p = gen_pred(rng, depth - 1)
         if p[0] in ('n', 'last', 'pos'):
             p = ['cmp', 'eq', ['pos'], p]
+        if p[0] == 'lit':
+            p = ['n', 1]
         return ['g', p] if p[0] in ('and', 'or') else p
     return [rng.choice(['and', 'or']), operand(), operand()]
 
@@ -1234,6 +1262,14 @@ CORPUS_EXPR = [
     (T4, ['ds', ['dr', S('child', 'q::x', True)], S('child', 'q::x', True)]),
     (T3, ['dr', ['p', S('child', 'any', True), ['and', S('attribute', 'q::k', True), ['not', S('child', 'q::zz', True)]]]]),
     (T3, ['r0']),
+    (T3, ['dr', ['p', S('child', 'any', True), ['n', 0]]]),                                                    # //*[0]
+    (T3, ['p', ['g', ['dr', S('child', 'any', True)]], ['n', 0, 1]]),                                           # (//*)[00]
+    (T3, ['sl', ['dr', S('child', 'q::a', True)], ['p', S('child', 'text', True), ['n', 0]]]),                # //a/text()[0]
+    (T3, ['dr', ['p', S('child', 'any', True), ['p', S('child', 'any', True), ['n', 0]]]]),                    # //*[*[0]]
+    (T3, ['sl', ['dr', S('child', 'q::f', True)], ['p', S('ancestor', 'any'), ['n', 0]]]),                     # reverse step [0]
+    (T3, ['dr', ['p', S('child', 'any', True), ['lit', 0, 20]]]),                                              # //*[2.0]
+    (T3, ['dr', ['p', S('child', 'any', True), ['lit', 1, 10, 'int']]]),                                       # //*[-1]
+    (T3, ['dr', ['p', ['p', S('child', 'any', True), ['n', 10 ** 20]], ['n', 1]]]),
     (T3, ['sl', ['g', ['un', ['dr', S('child', 'q::c', True)], ['dr', S('child', 'q::e', True)]]], ['u']]),   # (//c | //e)/..
     (T3, ['ds', ['g', ['dr', S('child', 'q::d', True)]], S('child', 'q::f', True)]),                           # (//d)//f
     (T3, ['un', ['un', ['sl', ['dr', S('child', 'q::f', True)], ['u']], ['dr', S('child', 'q::b', True)]], ['r', S('child', 'q::a', True)]]),
@@ -1406,7 +1442,8 @@ def search_exprs():
         for l, r in ((cx, cy), (['not', cx], cy), (cy, ['not', cx]), (['not', cx], ['not', cy]), (['not', ak], cx),
                      (['cmp', 'gt', ['count', cx], ['n', 0]], cy), (['not', ['u']], cx), (['not', S('child', 'any', True)], ak)):
             bools.append([op, l, r])
-    preds = [['n', 1], ['n', 2], ['last'], ['cmp', 'gt', ['pos'], ['n', 1]], S('child', 'any', True),
+    preds = [['n', 1], ['n', 2], ['n', 0], ['n', 0, 1], ['n', 3], ['n', 10 ** 20], ['lit', 1, 10, 'int'], ['lit', 0, 20], ['lit', 0, 15],
+             ['lit', 0, 0], ['last'], ['cmp', 'gt', ['pos'], ['n', 1]], S('child', 'any', True),
              ['not', S('child', 'q::x', True)]] + bools
     one = list(steps) + [['p', s, p] for s in steps if s[0] == 's' for p in preds] + \
         [['p', ['p', s, preds[3]], preds[0]] for s in steps if s[0] == 's' and s[2] == 'any']
@@ -1522,7 +1559,7 @@ def valid_shape(e, top=True) -> bool:
     if k in ('g', 'not', 'count'):
         return valid_shape(e[1], False)
     if k == 'un':
-        return e[2][0] != 'un' and all(x[0] not in ('and', 'or', 'not', 'cmp', 'n', 'pos', 'last', 'count') and valid_shape(x, False)
+        return e[2][0] != 'un' and all(x[0] not in ('and', 'or', 'not', 'cmp', 'n', 'lit', 'pos', 'last', 'count') and valid_shape(x, False)
                                        for x in e[1:])
     if k in ('and', 'or', 'cmp'):
         return all(valid_shape(x, False) for x in e[1:] if isinstance(x, list))
@@ -1546,7 +1583,7 @@ def shrink(d: Disagreement) -> Disagreement:
         for tv in tree_variants(c['tree']):
             cands.append(dict(c, tree=tv))
         for ev in expr_variants(c['expr']):
-            if valid_shape(ev) and ev[0] not in ('n', 'pos', 'last', 'cmp', 'and', 'or', 'not', 'count'):
+            if valid_shape(ev) and ev[0] not in ('n', 'lit', 'pos', 'last', 'cmp', 'and', 'or', 'not', 'count'):
                 cands.append(dict(c, expr=ev))
         if c['pre'] or c['post']:
             cands.append(dict(c, pre=[], post=[]))
@@ -1573,7 +1610,7 @@ FRAGMENT_SYMBOLS = ['self', 'child', 'descendant', 'descendant-or-self', 'parent
                     'following-sibling', 'preceding-sibling', 'following', 'preceding', 'attribute', 'namespace',
                     '@', '/', '//', '[', '(', '(name)', ':', '*', '.', '..', 'node', 'text', 'comment',
                     'processing-instruction', '(integer)', 'position', 'last', 'count', 'not', 'and', 'or',
-                    '=', '!=', '<', '<=', '>', '>=', '|']
+                    '=', '!=', '<', '<=', '>', '>=', '|', '(decimal)', '-']
 METHODS = ['select', 'evaluate', 'select_with_focus', 'nud', 'led']
 ATTRS = ['lbp', 'rbp', 'label', 'reverse_axis']
 
